@@ -115,17 +115,20 @@ def c08_schur_code(ctx, shape):
 
 
 def _solve_cases(tier):
-    return [dict(shape=s) for s in (_shapes(tier) if tier != "quick" else [(5,), (3, 2), (1, 4), (4, 4), (2, 2, 2), (2, 1, 3)])]
+    out = [dict(shape=s, scale=1.0) for s in (_shapes(tier) if tier != "quick" else [(5,), (3, 2), (1, 4), (4, 4), (2, 2, 2), (2, 1, 3)])]
+    # fine physical resolution: right-hand sides of tiny magnitude (absolute tolerances must not be mistaken for relative ones)
+    out += [dict(shape=s, scale=1e-4) for s in [(4, 4), (3, 2, 2)]]
+    return out
 
 
 @ob("C08.solve", kind="B", cases=_solve_cases, funcs=FUNCS, samples=(1, 2), tol=1e-6,
     cite="yields the same flux, pressure and multiplier up to solver tolerance, and that solution satisfies the original full system ... reuse of a cached factorisation across successive systems",
     note="bounded: every documented (formulation, back end); convergence of AMG / CG to tolerance is not decidable by contract")
-def c08_solve(ctx, shape):
+def c08_solve(ctx, shape, scale):
     rng = np.random.default_rng(ctx.rng.randrange(1 << 30))
-    grid, h = grid_of(shape)
+    grid, h = grid_of(shape, scale=scale)
     combos = [(f, b) for f in FORMULATIONS for b in BACKENDS[f]]
-    ws = {c: solver("newton", grid, base_options(formulation=c[0], linear_solver=c[1], linear_solver_options={"tol": 1e-12, "maxiter": 500})) for c in combos}
+    ws = {c: solver("newton", grid, base_options(formulation=c[0], linear_solver=c[1], linear_solver_options={"rtol": 1e-11, "atol": 1e-13 if c[1] == "amg" else 0.0, "maxiter": 500})) for c in combos}
     w0 = ws[("full", "direct")]
     systems = [system(w0, rng) for _ in range(3)]
     ref = []
@@ -151,3 +154,24 @@ def c08_solve(ctx, shape):
         r2 = systems[1][1]
         x2, _ = w.linear_solve(J.copy(), r2.copy(), reuse_solver=True)
         ctx.ensure(f"{c}: reusing the factorisation for a new right-hand side of the same matrix solves that system", float(np.linalg.norm(J @ x2 - r2)) <= 1e-6 * max(1.0, float(np.linalg.norm(r2))))
+
+
+@ob("C08.options", kind="T", cases=[dict(ls="cg"), dict(ls="amg")], funcs=FUNCS + ["darsia.measure.wasserstein:VariationalWassersteinDistance.setup_cg_solver",
+                                                                               "darsia.measure.wasserstein:VariationalWassersteinDistance.setup_amg_solver"], samples=(1, 1),
+    cite="with the direct, algebraic-multigrid or preconditioned conjugate-gradient back-end ... up to solver tolerance",
+    note="configuration plumbing: the tolerances and iteration limit the user passes reach the back end under the documented names (distinct values per key)")
+def c08_options(ctx, ls):
+    grid, h = grid_of((3, 3))
+    given = {"rtol": 3e-9, "atol": 7e-13, "maxiter": 123}
+    w = solver("newton", grid, base_options(formulation="pressure", linear_solver=ls, linear_solver_options=dict(given)))
+    rng = np.random.default_rng(1)
+    J, r, _ = system(w, rng)
+    w.linear_solve(J, r)
+    so = w.solver_options
+    if ls == "cg":
+        ctx.ensure("cg: relative tolerance, absolute tolerance and iteration limit are the user's", so.get("rtol") == given["rtol"] and so.get("atol") == given["atol"] and so.get("maxiter") == given["maxiter"])
+        w2 = solver("newton", grid, base_options(formulation="pressure", linear_solver="cg", linear_solver_options={}))
+        w2.linear_solve(J, r)
+        ctx.ensure("cg defaults: rtol 1e-6, atol 0 (documented)", w2.solver_options.get("rtol") == 1e-6 and w2.solver_options.get("atol") == 0)
+    else:
+        ctx.ensure("amg: tolerance and iteration limit are the user's", so.get("tol") == given["atol"] and so.get("maxiter") == given["maxiter"])
